@@ -394,6 +394,11 @@ def check_one(label, fmt, n, opts, tmpdir, rng):
             sdn.parse(p1)
         except Exception as e:  # noqa
             bad.append('written file not readable: %s' % type(e).__name__)
+        # both texts against the whole-file WRITER MODEL on the value of the (unchanged) netlist: the two
+        # documents are emit_file of one value with two timestamps (Props/C16.v C16_emit_second_write)
+        import edif_emit as ee
+        for which, data in (('first', data1), ('second', data2)):
+            bad += ['%s compose: %s' % (which, x) for x in ee.check_text(n, data)]
     return len(data1), bad
 
 
@@ -445,6 +450,7 @@ def run(prop, tier, seed, replay):
             'rule': 'netlists parsed from the smallest bundled examples of each format, hand-written tiny files and netgen netlists; each composed under every option setting of its format (3 compositions + 1 direct Composer run each); all distinct (netlist, format, options) triples',
             'samples': samples or [{'note': 'none'}], 'format_option_outcome_histogram': dict(sorted(hist.items())),
             'known_finding_hits': dict(known_hits), 'exhaustive': False,
+            'edif_writer_model_tie': __import__('edif_emit').summary(),
         }
         common.write_evidence(prop, tier, seed, coverage, wall, len(rep.violations),
                               ['"file complete and closed when the call returns" is OS/runtime behaviour: checked on the implementation only'])
